@@ -121,3 +121,23 @@ M("c01-gac-outside", "C01", "flexstack/geonet/router.py",
   "        area_f = self.gn_geometric_function_f(\n            common_header.hst,  # type: ignore\n            area,\n            gbc_extended_header.so_pv.latitude,\n            gbc_extended_header.so_pv.longitude,\n        )\n        try:\n            # Step 3: DPD", "GAC area test uses the source position instead of ego")
 M("c01-ls-pending-reset", "C01", "flexstack/geonet/router.py",
   "        if de_entry is None or de_entry.ls_pending is True:", "        if de_entry is None:", "revert of the LS-pending fix")
+
+# ---------------------------------------------------------------- C06
+M("c06-tsb-nodpd", "C06", "flexstack/geonet/location_table.py",
+  "        # Step 3 (DPD) – SN-based duplicate check per annex A.2\n        self.check_duplicate_sn(tsb_extended_header.sn)\n", "", "no duplicate detection for TSB")
+M("c06-tsb-rhl", "C06", "flexstack/geonet/router.py",
+  "            new_rhl = basic_header.rhl - 1\n            if new_rhl > 0:\n                updated_basic_header = basic_header.set_rhl(new_rhl)\n                # Step 10: if no neighbour AND SCF: buffer in BC forwarding packet buffer",
+  "            new_rhl = basic_header.rhl - 1\n            if new_rhl >= 0:\n                updated_basic_header = basic_header.set_rhl(new_rhl)\n                # Step 10: if no neighbour AND SCF: buffer in BC forwarding packet buffer", "TSB forwarded when received RHL is 1")
+M("c06-guc-refresh-ge", "C06", "flexstack/geonet/router.py",
+  "                if de_entry.position_vector.tst > guc_extended_header.de_pv.tst:", "                if de_entry.position_vector.tst >= guc_extended_header.de_pv.tst:", "GUC DE PV refreshed by an equal timestamp")
+M("c06-gbc-nodec", "C06", "flexstack/geonet/router.py",
+  "        basic_header = basic_header.set_rhl(basic_header.rhl - 1)\n        # 10) if no neighbour exists", "        basic_header = basic_header.set_rhl(basic_header.rhl)\n        # 10) if no neighbour exists", "GBC forwarded without decrementing RHL")
+M("c06-no-dad-gac", "C06", "flexstack/geonet/router.py",
+  "            self.duplicate_address_detection(gbc_extended_header.so_pv.gn_addr)\n            # Steps 5-6: create/update SO LocTE (PV, PDR, IS_NEIGHBOUR per NOTE 1)\n            self.location_table.new_gac_packet", "            self.location_table.new_gac_packet", "no DAD for GAC")
+M("c06-cbf-revert", "C06", "flexstack/geonet/router.py",
+  "            self._cbf_discard(\n                (gbc_extended_header.so_pv.gn_addr, gbc_extended_header.sn))\n", "", "revert of the CBF duplicate-cancel fix")
+M("c06-dpl-len", "C06", "flexstack/geonet/location_table.py",
+  "            if sn in self.dpl_set:\n                raise DuplicatedPacketException", "            if sn in self.dpl_set and sn == self.dpl_deque[-1]:\n                raise DuplicatedPacketException", "only the most recent SN is recognised as duplicate")
+M("c06-gac-rhl-revert", "C06", "flexstack/geonet/router.py", "            if new_rhl <= 0:\n                # Step 10a(i)", "            if new_rhl == 0:\n                # Step 10a(i)", "revert of the GAC RHL fix")
+M("c06-cbf-expiry-keep", "C06", "flexstack/geonet/router.py",
+  "            del self._cbf_buffer[cbf_key]\n        try:\n            if self.link_layer:\n                self.link_layer.send(full_packet)", "        try:\n            if self.link_layer:\n                self.link_layer.send(full_packet)\n                self.link_layer.send(full_packet)", "CBF expiry sends the copy twice")
